@@ -3,7 +3,7 @@ import fcntl, hashlib, json, os, random, re, shutil, subprocess, sys, time
 
 VERIF = os.path.dirname(os.path.dirname(os.path.abspath(__file__)))
 REPO = os.environ.get("GDSL_REPO", "/repo")
-CACHE = os.path.join(VERIF, ".cache")
+CACHE = os.environ.get("VERIF_CACHE") or os.path.join(VERIF, ".cache")
 COQ = os.path.join(VERIF, "coq")
 HARNESS_BIN = os.path.join(CACHE, "target", "release", "gdsl_verif_harness")
 MODEL_BIN = os.path.join(CACHE, "ocaml", "model_driver")
@@ -149,9 +149,22 @@ def build_model_driver():
 
 
 def build_harness():
-    hd = os.path.join(VERIF, "harness")
+    """the harness crate is copied into the cache with a manifest whose path dependency points at REPO (normally /repo;
+    GDSL_REPO overrides it for evaluating seeded changes in a scratch worktree) and built there"""
+    src = os.path.join(VERIF, "harness")
+    hd = os.path.join(CACHE, "harness_crate")
+    os.makedirs(os.path.join(hd, "src"), exist_ok=True)
+    os.makedirs(os.path.join(hd, ".cargo"), exist_ok=True)
+    for f in os.listdir(os.path.join(src, "src")):
+        a, b = os.path.join(src, "src", f), os.path.join(hd, "src", f)
+        if not os.path.exists(b) or open(a, "rb").read() != open(b, "rb").read():
+            shutil.copy(a, b)
+    man = open(os.path.join(src, "Cargo.toml")).read().replace('path = "/repo"', 'path = "%s"' % REPO)
+    if not os.path.exists(os.path.join(hd, "Cargo.toml")) or open(os.path.join(hd, "Cargo.toml")).read() != man:
+        open(os.path.join(hd, "Cargo.toml"), "w").write(man)
+    open(os.path.join(hd, ".cargo", "config.toml"), "w").write("[net]\noffline = true\n")
+    # the lock file of the repository pins every dependency version; ours is derived from it
     lock_src = os.path.join(REPO, "Cargo.lock")
-    # the lock file of /repo pins every dependency version; keep ours derived from it
     if not os.path.exists(os.path.join(hd, "Cargo.lock")) and os.path.exists(lock_src):
         shutil.copy(lock_src, os.path.join(hd, "Cargo.lock"))
     env = {"RUSTFLAGS": RUSTFLAGS, "CARGO_NET_OFFLINE": "true", "CARGO_TARGET_DIR": os.path.join(CACHE, "target")}
